@@ -1,9 +1,80 @@
-(* C08 - a DKV checkpoint restores to exactly the state at the checkpoint call. Statements only; proofs in Proofs/C08_*.v *)
+(* C08 - a DKV checkpoint restores to exactly the state at the checkpoint call.
+   Statements only; proofs in Proofs/C08_Ckpt.v (database level) and Proofs/C09_Gc.v (world level witness).
+
+   Reading guide. [reach d]: d is a database state that can exist - a new database, any further action of any schedule
+   (write incl. rotation, locked part of Checkpoint, swap of a flush that snapshotted any number of sealed memtables, apply of
+   any compaction change set whose tables carry correct end sequence numbers), or a restore (any ownership filter, any sizes)
+   from a checkpoint of a database that can exist. [snd (db_checkpoint d)] is what Checkpoint captures under the lock: the level
+   set, the sealed WAL writer's content, After = LatestSeqNum. It is immutable data, so nothing the original database does
+   afterwards changes it; that the FILES holding it stay intact while the checkpoint is retained is C09. *)
 From Coq Require Import List NArith Bool.
 Import ListNotations.
-From RV Require Import Base.Bytes Model.Ckpt.
+From RV Require Import Base.Bytes Model.Ckpt Model.Gc Proofs.C08_Ckpt Proofs.C09_Gc.
 Open Scope N_scope.
 
-Theorem empty_wal_replays_nothing : forall after, wal_read [] after = ROk [].
-Proof. reflexivity. Qed.
-Print Assumptions empty_wal_replays_nothing.
+(* checkpoint_exact at the level of database objects: for every reachable database (every history, every schedule of
+   background steps, every chain), the log reader neither panics nor hits end-of-file, the restored database answers every
+   owned key exactly as the original did at the call, it is again a reachable database (chains by induction), and it accepts
+   new writes normally. *)
+Theorem checkpoint_exact_partial : forall d o mem wm,
+  reach d ->
+  exists es, wal_read (cp_wal (snd (db_checkpoint d))) (cp_after (snd (db_checkpoint d))) = ROk es /\
+    let r := fst (db_restore mem wm o (cp_tables (snd (db_checkpoint d))) (cp_walid (snd (db_checkpoint d))) es) in
+    reach r /\ (forall k, owns o k = true -> db_get r k = db_get d k) /\
+    (forall k del v k', db_get (fst (db_write r k del v)) k' = if beqb k' k then (if del then None else Some v) else db_get r k').
+Proof. exact checkpoint_exact_db. Qed.
+Print Assumptions checkpoint_exact_partial.
+
+(* every reachable database satisfies the representation invariant (contiguous log, memtables = chunks of the log above
+   LatestSeqNum, table entries at or below it, segment bookkeeping) *)
+Theorem reachable_invariant : forall d, reach d -> Inv d.
+Proof. exact reach_inv. Qed.
+Print Assumptions reachable_invariant.
+
+(* reads of a database with the invariant: the last write of the key in the log above LatestSeqNum, else the newest table entry *)
+Theorem read_characterisation : forall d a pre cs ca k, Rep d a pre cs ca -> db_get d k = view (concat cs ++ ca) (d_tables d) k.
+Proof. exact db_get_char. Qed.
+Print Assumptions read_characterisation.
+
+(* a Put/Delete is visible at once and changes no other key - on originals and on restored databases alike *)
+Theorem write_visible : forall d k del v k', Inv d ->
+  db_get (fst (db_write d k del v)) k' = if beqb k' k then (if del then None else Some v) else db_get d k'.
+Proof. exact db_write_get. Qed.
+Print Assumptions write_visible.
+
+(* "nothing left to replay" is never turned into an error: the skip loop never runs past the end, the gap check never fires *)
+Theorem replay_never_fails : forall d, reach d ->
+  exists es, wal_read (cp_wal (snd (db_checkpoint d))) (cp_after (snd (db_checkpoint d))) = ROk es.
+Proof. exact C08_Ckpt.replay_never_fails. Qed.
+Print Assumptions replay_never_fails.
+
+(* the flush swap keeps the invariant whatever prefix of the sealed memtables the task had snapshotted *)
+Theorem flush_swap_keeps_invariant : forall d a pre cs ca n dir next,
+  Rep d a pre cs ca -> (n <= length cs)%nat ->
+  exists a' pre', Rep (db_flush_swap d n (mk_tables dir next (firstn n (d_sealed d)))) a' pre' (skipn n cs) ca.
+Proof. exact rep_flush_swap. Qed.
+Print Assumptions flush_swap_keeps_invariant.
+
+(* checkpoint_exact at full strength - over the world model with files, retention, crashes, same-process drops and garbage
+   collection: "every completed handle that no retention update dropped can be opened and all its files exist". It is FALSE
+   of the faithful model because of finding D11 (same-process drop of the creating object + collection): witness below. The
+   part outside that class is what the correspondence check tests on every run (codes 10-13, 100-103). *)
+Definition checkpoint_exact_full_statement : Prop :=
+  forall ops id, (forall d ids, In (ORetain d ids) ops -> In id ids) ->
+    handle_dir (run (init_world 60 1000) ops) id <> None -> handle_files_exist (run (init_world 60 1000) ops) id = true.
+
+Theorem checkpoint_exact_refuted : ~ checkpoint_exact_full_statement.
+Proof.
+  intro H. specialize (H d11_history 1).
+  assert (handle_files_exist (run (init_world 60 1000) d11_history) 1 = true) as E.
+  { apply H.
+    - intros d ids HI. exfalso. cbn in HI. repeat (destruct HI as [HI|HI]; [discriminate|]). exact HI.
+    - destruct retained_files_exist_refuted as [E _]. rewrite E. discriminate. }
+  destruct retained_files_exist_refuted as [_ [E' _]]. rewrite E' in E. discriminate.
+Qed.
+Print Assumptions checkpoint_exact_refuted.
+
+(* non-vacuity: the invariant holds of a new database and a history with rotation, flush and checkpoint is reachable *)
+Example reach_example :
+  reach (do_action (do_action (do_action (db_new 60 1000) (AWrite [0;0;97] false [49])) ACheckpoint) (AWrite [0;0;98] true [])).
+Proof. repeat (apply reach_act; [|exact I]). apply reach_new. Qed.
